@@ -1,4 +1,5 @@
 import GapicModel.Model.Types
+import GapicModel.Lemmas.AddressT
 /-
 C02 — generated message and enum classes are wire-compatible with the input descriptors.
 
@@ -941,5 +942,40 @@ example : (["type".toList, "class".toList, "item_id".toList, "name".toList].map 
 /-- `wire_name_recovered` on a reserved word -/
 example : fieldAttr true "import".toList = "import_".toList ∧ unsuffix "import_".toList = "import".toList ∧
     toJsonName "import_".toList = "import".toList ∧ toJsonName "item_id".toList = "itemId".toList := by decide
+
+/-! ## `Address.rel` over the method body translated from the current source (Model/AddressT.lean, Lemmas/AddressT.lean) -/
+section TranslatedRel
+open GapicModel.Model.AddressT GapicModel.Lemmas.AddressT GapicModel.PyRt GapicModel.Pinned.Funcs
+
+/-- **a reference inside the file being written is late-bound (quoted) unless it is to a type nested in the top-level message
+being written**; a type of another file is referred to by `str(self)`.  Stated about the translation of `Address.rel` as it stands
+in /repo.  (A bare name for "earlier" declarations — the seeded change of round 8 — contradicts it: a nested message's reference
+to its enclosing message would be bare.) -/
+theorem translated_rel_quotes_same_file_references (a b : GapicModel.Model.AddressT.Addr) :
+    ((a.package == b.package && a.module == b.module) = false ∧ GapicModel.Model.AddressT.rel a b = str a) ∨
+    ((a.package == b.package && a.module == b.module) = true ∧
+      (quoted (GapicModel.Model.AddressT.rel a b) ∨
+       (b.parent = [] ∧ a.parent.head? = some b.name ∧
+        GapicModel.Model.AddressT.rel a b = join ['.'] (a.parent.drop 1 ++ [a.name])))) :=
+  rel_cases a b
+
+/-- `Address.rel` raises for no input -/
+theorem translated_rel_never_raises (sp : List Str) (sm : Str) (spar : List Str) (sn : Str) (op : List Str) (om : Str)
+    (opar : List Str) (on s : Str) : address_rel_ok sp sm spar sn op om opar on s = true :=
+  rel_never_raises sp sm spar sn op om opar on s
+
+/-- non-vacuity: a nested message referring to its enclosing message is quoted; the enclosing message referring to its nested
+type is bare; another file's type is `module.Name` -/
+example :
+    let n : NamingV := ⟨true, "acme.lib.v1".toList, "v1".toList, [], "lib_v1".toList, []⟩
+    let pk := ["acme".toList, "lib".toList, "v1".toList]
+    let tree : GapicModel.Model.AddressT.Addr := ⟨"Tree".toList, "lib".toList, pk, [], [], n⟩
+    let branch : GapicModel.Model.AddressT.Addr := ⟨"Branch".toList, "lib".toList, pk, ["Tree".toList], [], n⟩
+    let other : GapicModel.Model.AddressT.Addr := ⟨"Leaf".toList, "leaf".toList, pk, [], [], n⟩
+    GapicModel.Model.AddressT.rel tree branch = "'Tree'".toList ∧
+    GapicModel.Model.AddressT.rel branch tree = "Branch".toList ∧
+    GapicModel.Model.AddressT.rel other tree = "leaf.Leaf".toList := by decide
+
+end TranslatedRel
 
 end GapicModel.Props.C02
